@@ -47,12 +47,12 @@ theorem parse_ok_iff (ts : List Token) (e : Engine) :
 
 /-- `evalTop_no_panic`.  With the deferred recover in `Engine.Evaluate` (regenerated flag) no
     evaluation ends in a panic, for every program, every document list and every fuel. -/
-theorem evalTop_no_panic (fuel : Nat) (docs : List Forest) (eng : Engine) (p : PanicSite) :
-    evalTop fuel docs eng ≠ .panic p := by
+theorem evalTop_no_panic (now fuel : Nat) (docs : List Forest) (eng : Engine) (p : PanicSite) :
+    evalTop now fuel docs eng ≠ .panic p := by
   have hflag : Generated.Query.evaluateRecovers = true := by decide
   unfold evalTop evalTopWith
   rw [hflag]
-  cases evalRaw Generated.Query.cycleGuard fuel docs eng <;> simp [recoverOutcome]
+  cases evalRaw now Generated.Query.cycleGuard fuel docs eng <;> simp [recoverOutcome]
 
 /-- what the recover does: a panic becomes an error, everything else is unchanged -/
 theorem recover_spec (o : Outcome Val) :
@@ -62,7 +62,7 @@ theorem recover_spec (o : Outcome Val) :
 /-- the statement is false of code without the recover (the tree before the repair):
     `Combine(1)` panics in `reflect.MakeSlice` — the witness replayed on the implementation -/
 theorem no_recover_counterexample :
-    evalTopWith false false 3 [[]] [.mk [] [.call (ascii "Combine") [.mk [] [.const (ascii "1")]]]]
+    evalTopWith 2026 false false 3 [[]] [.mk [] [.call (ascii "Combine") [.mk [] [.const (ascii "1")]]]]
       = .panic .makeSlice := by rfl
 
 /-! ### evaluation terminates -/
@@ -71,7 +71,7 @@ mutual
 theorem ND_evalExpr (env : Env) (lk : Lookup) :
     ∀ (e : Expr) (v : Val), (∀ x ∈ varsE e, ∀ w, ND (lk x w)) → ND (evalExpr env lk e v)
   | .const s, v, _ => by unfold evalExpr; exact ND_ok _
-  | .acc q, v, _ => by unfold evalExpr; exact ND_evalAccessor _ _ _
+  | .acc q, v, _ => by unfold evalExpr; exact ND_evalAccessor _ _ _ _
   | .var n, v, h => by unfold evalExpr; exact h n (by simp [varsE]) v
   | .question, v, _ => by unfold evalExpr; exact ND_questionOf _ _
   | .obj fs, v, h => by
@@ -236,23 +236,23 @@ theorem le_maxRank (rank : Str → Nat) (ss : List Stmt) (s : Stmt) (h : s ∈ s
     finite recursion depth: from some fuel on, the evaluation never runs out of fuel — on any
     documents, with or without recover and cycle guard.  (The bound is 1 + the largest rank.) -/
 theorem eval_terminates (eng : Engine) (h : AcyclicVars eng) :
-    ∃ fuel, ∀ f, fuel ≤ f → ∀ (recovers guard : Bool) (docs : List Forest),
-      evalTopWith recovers guard f docs eng ≠ .diverged := by
+    ∃ fuel, ∀ f, fuel ≤ f → ∀ (now : Nat) (recovers guard : Bool) (docs : List Forest),
+      evalTopWith now recovers guard f docs eng ≠ .diverged := by
   obtain ⟨rank, hacy⟩ := h
   refine ⟨maxRank rank eng + 1, ?_⟩
-  intro f hf recovers guard docs
-  have hraw : ND (evalRaw guard f docs eng) := by
+  intro f hf now recovers guard docs
+  have hraw : ND (evalRaw now guard f docs eng) := by
     unfold evalRaw
     split
     · exact ND_panic _
     · apply ND_evalAll
       intro s hs y hy w
-      apply ND_evalVar (mkEnv docs eng) guard rank hacy
+      apply ND_evalVar (mkEnv now docs eng) guard rank hacy
       have h1 := hacy s hs y hy
       have h2 := le_maxRank rank eng s hs
       omega
   unfold evalTopWith
-  cases hr : evalRaw guard f docs eng with
+  cases hr : evalRaw now guard f docs eng with
   | diverged => exact absurd hr hraw.ne
   | panic p => cases recovers <;> simp [recoverOutcome]
   | _ => simp [recoverOutcome]
@@ -265,15 +265,15 @@ theorem acyclic_of_no_vars (eng : Engine) (h : ∀ s ∈ eng, varsS s = []) : Ac
 
 def cyclic : Engine := [.mk (ascii "X") [.var (ascii "X")], .mk [] [.var (ascii "X")]]
 
-theorem cyclic_var_diverges (docs : List Forest) (hd : docs.length = 1) :
+theorem cyclic_var_diverges (now : Nat) (docs : List Forest) (hd : docs.length = 1) :
     ∀ (n : Nat) (active : List Str) (v : Val),
-      evalVar (mkEnv docs cyclic) false n active (ascii "X") v = .diverged := by
+      evalVar (mkEnv now docs cyclic) false n active (ascii "X") v = .diverged := by
   intro n
   induction n with
   | zero => intro _ _; rfl
   | succ n ih =>
     intro active v
-    have hl : lookupVar (mkEnv docs cyclic).docs.length (mkEnv docs cyclic).eng (ascii "X")
+    have hl : lookupVar (mkEnv now docs cyclic).docs.length (mkEnv now docs cyclic).eng (ascii "X")
         = some (.stmt (.mk (ascii "X") [.var (ascii "X")])) := by
       show lookupVar docs.length cyclic (ascii "X") = _
       rw [hd]; rfl
@@ -284,24 +284,24 @@ theorem cyclic_var_diverges (docs : List Forest) (hd : docs.length = 1) :
 /-- `cyclic_diverges`.  Without a cycle guard (the tree before the repair) the program
     `X is X; X` needs unbounded recursion depth: it runs out of every fuel — in Go, the stack
     overflows, which no recover can catch. -/
-theorem cyclic_diverges (fuel : Nat) (recovers : Bool) :
-    evalTopWith recovers false fuel [[]] cyclic = .diverged := by
-  have h := cyclic_var_diverges [[]] rfl fuel [] (.doc 0)
+theorem cyclic_diverges (now fuel : Nat) (recovers : Bool) :
+    evalTopWith now recovers false fuel [[]] cyclic = .diverged := by
+  have h := cyclic_var_diverges now [[]] rfl fuel [] (.doc 0)
   unfold evalTopWith evalRaw
   simp [cyclic, evalAll, evalStmt, evalPipe, evalExpr] at h ⊢
   simp [cyclic, h, recoverOutcome]
 
 /-- with the cycle guard the same program is an error, at every fuel ≥ 2 -/
-theorem cyclic_guarded (n : Nat) (recovers : Bool) :
-    evalTopWith recovers true (n + 2) [[]] cyclic = .error .cycle := by
+theorem cyclic_guarded (now n : Nat) (recovers : Bool) :
+    evalTopWith now recovers true (n + 2) [[]] cyclic = .error .cycle := by
   cases recovers <;> rfl
 
 /-- the evaluator of the current tree (regenerated flags) reports the cycle as an error -/
-theorem cyclic_is_error_now : evalTop (defaultFuel [[]] cyclic) [[]] cyclic = .error .cycle := by
+theorem cyclic_is_error_now (now : Nat) : evalTop now (defaultFuel [[]] cyclic) [[]] cyclic = .error .cycle := by
   have h1 : Generated.Query.cycleGuard = true := by decide
   unfold evalTop
   rw [h1]
-  exact cyclic_guarded 3 _
+  exact cyclic_guarded now 3 _
 
 /-! #### with the cycle guard every program terminates -/
 
@@ -357,29 +357,29 @@ theorem ND_evalVar_guarded (env : Env) :
 /-- `guard_terminates`.  With the cycle guard every program terminates, cyclic or not: the
     variables being evaluated are pairwise distinct and each names a statement, so the nesting
     depth never exceeds the number of statements — fuel above that is never exhausted. -/
-theorem guard_terminates (eng : Engine) (docs : List Forest) (fuel : Nat) (hf : eng.length < fuel) (recovers : Bool) :
-    evalTopWith recovers true fuel docs eng ≠ .diverged := by
-  have hraw : ND (evalRaw true fuel docs eng) := by
+theorem guard_terminates (now : Nat) (eng : Engine) (docs : List Forest) (fuel : Nat) (hf : eng.length < fuel) (recovers : Bool) :
+    evalTopWith now recovers true fuel docs eng ≠ .diverged := by
+  have hraw : ND (evalRaw now true fuel docs eng) := by
     unfold evalRaw
     split
     · exact ND_panic _
     · apply ND_evalAll
       intro s _ y _ w
-      exact ND_evalVar_guarded (mkEnv docs eng) fuel [] y w List.nodup_nil (by simp) (by simpa [mkEnv] using hf)
+      exact ND_evalVar_guarded (mkEnv now docs eng) fuel [] y w List.nodup_nil (by simp) (by simpa [mkEnv] using hf)
   unfold evalTopWith
-  cases hr : evalRaw true fuel docs eng with
+  cases hr : evalRaw now true fuel docs eng with
   | diverged => exact absurd hr hraw.ne
   | panic p => cases recovers <;> simp [recoverOutcome]
   | _ => simp [recoverOutcome]
 
 /-- `evalTop_terminates`.  The evaluator of the current tree (regenerated cycle-guard flag), run
     with the fuel the driver uses, never diverges: no stack overflow, no endless loop. -/
-theorem evalTop_terminates (docs : List Forest) (eng : Engine) :
-    evalTop (defaultFuel docs eng) docs eng ≠ .diverged := by
+theorem evalTop_terminates (now : Nat) (docs : List Forest) (eng : Engine) :
+    evalTop now (defaultFuel docs eng) docs eng ≠ .diverged := by
   have h1 : Generated.Query.cycleGuard = true := by decide
   unfold evalTop
   rw [h1]
-  exact guard_terminates eng docs _ (by unfold defaultFuel; omega) _
+  exact guard_terminates now eng docs _ (by unfold defaultFuel; omega) _
 
 /-! ### formatters -/
 
@@ -401,6 +401,7 @@ theorem gedcom_no_panic : ∀ v, fmtGedcom goodFlags v ≠ .panic
   | .str _ => by simp [fmtGedcom, Val.nonNillable, goodFlags]
   | .int _ => by simp [fmtGedcom, Val.nonNillable, goodFlags]
   | .bool _ => by simp [fmtGedcom, Val.nonNillable, goodFlags]
+  | .float _ _ => by simp [fmtGedcom, Val.nonNillable, goodFlags]
   | .someBool => by simp [fmtGedcom, Val.nonNillable, goodFlags]
   | .doc _ => by simp [fmtGedcom, Val.nonNillable, Val.isNilLike]
   | .node _ _ => by simp [fmtGedcom, Val.nonNillable, Val.isNilLike]
@@ -427,6 +428,7 @@ theorem html_no_panic : ∀ v, fmtHtml goodFlags v ≠ .panic
   | .str _ => by simp [fmtHtml, Val.nonNillable, goodFlags]
   | .int _ => by simp [fmtHtml, Val.nonNillable, goodFlags]
   | .bool _ => by simp [fmtHtml, Val.nonNillable, goodFlags]
+  | .float _ _ => by simp [fmtHtml, Val.nonNillable, goodFlags]
   | .someBool => by simp [fmtHtml, Val.nonNillable, goodFlags]
   | .doc _ => by simp [fmtHtml, Val.nonNillable]
   | .node _ _ => by simp [fmtHtml, Val.nonNillable]
@@ -479,23 +481,23 @@ theorem format_counterexample :
     tree: recover + cycle guard) gives a value or an error — or the model says that the query
     leaves the modelled accessor menu; a value is written or refused by the formatter.  No
     panic, no divergence anywhere. -/
-theorem query_never_crashes (s : Str) (docs : List Forest) (format : String) :
+theorem query_never_crashes (now : Nat) (s : Str) (docs : List Forest) (format : String) :
     parse s = .syntaxError ∨
     ∃ eng, parse s = .ok eng ∧
-      ((∃ k, evalTop (defaultFuel docs eng) docs eng = .error k) ∨
-       (∃ w, evalTop (defaultFuel docs eng) docs eng = .unsupported w) ∨
-       (∃ v, evalTop (defaultFuel docs eng) docs eng = .ok v ∧
+      ((∃ k, evalTop now (defaultFuel docs eng) docs eng = .error k) ∨
+       (∃ w, evalTop now (defaultFuel docs eng) docs eng = .unsupported w) ∨
+       (∃ v, evalTop now (defaultFuel docs eng) docs eng = .ok v ∧
           (formatOutcome ⟨Generated.Query.fmtIsNilPanics, Generated.Query.fmtCsvNilPanics⟩ format v = .written ∨
            formatOutcome ⟨Generated.Query.fmtIsNilPanics, Generated.Query.fmtCsvNilPanics⟩ format v = .error))) := by
   cases hp : parse s with
   | syntaxError => exact Or.inl rfl
   | ok eng =>
     refine Or.inr ⟨eng, rfl, ?_⟩
-    cases he : evalTop (defaultFuel docs eng) docs eng with
+    cases he : evalTop now (defaultFuel docs eng) docs eng with
     | ok v => exact Or.inr (Or.inr ⟨v, rfl, format_total format v⟩)
     | error k => exact Or.inl ⟨k, rfl⟩
-    | panic p => exact absurd he (evalTop_no_panic _ docs eng p)
-    | diverged => exact absurd he (evalTop_terminates docs eng)
+    | panic p => exact absurd he (evalTop_no_panic now _ docs eng p)
+    | diverged => exact absurd he (evalTop_terminates now docs eng)
     | unsupported w => exact Or.inr (Or.inl ⟨w, rfl⟩)
 
 /-! ### non-vacuity -/
@@ -516,13 +518,13 @@ example : ¬ AcyclicVars cyclic := by
   simp [Stmt.name] at this
 
 /-- ill-typed pipeline, unknown accessor, wrong argument count, negative count: errors, not crashes -/
-example : evalTop 3 [[]] [.mk [] [.acc (ascii ".Nodes"), .acc (ascii ".Nodes"), .acc (ascii ".Nodes")]]
+example : evalTop 2026 3 [[]] [.mk [] [.acc (ascii ".Nodes"), .acc (ascii ".Nodes"), .acc (ascii ".Nodes")]]
     = .error (.recovered .nilType) := by rfl
-example : evalTop 3 [[]] [.mk [] [.acc (ascii ".Foo")]] = .error .noSuchAccessor := by rfl
-example : evalTop 3 [[]] [.mk [] [.call (ascii "First") []]] = .error .argCount := by rfl
-example : evalTop 3 [[.mk (ascii "INDI") [] (ascii "I1") []]]
+example : evalTop 2026 3 [[]] [.mk [] [.acc (ascii ".Foo")]] = .error .noSuchAccessor := by rfl
+example : evalTop 2026 3 [[]] [.mk [] [.call (ascii "First") []]] = .error .argCount := by rfl
+example : evalTop 2026 3 [[.mk (ascii "INDI") [] (ascii "I1") []]]
     [.mk [] [.acc (ascii ".Individuals"), .call (ascii "First") [.mk [] [.const (ascii "-1")]]]]
     = .error (.recovered .sliceBounds) := by rfl
-example : evalTop 3 [[]] [.mk [] [.call (ascii "Combine") [], .question]] = .error (.recovered .nilType) := by rfl
+example : evalTop 2026 3 [[]] [.mk [] [.call (ascii "Combine") [], .question]] = .error (.recovered .nilType) := by rfl
 
 end Gedcom.C15
